@@ -1026,14 +1026,27 @@ func (m *Manager) ChangePassphrase(ns walletdb.ReadWriteBucket, oldPassphrase,
 			return maybeConvertDbError(err)
 		}
 
-		// Now that the db has been successfully updated, clear the old
-		// key and set the new one.
-		copy(m.cryptoKeyPrivEncrypted, encPriv)
-		copy(m.cryptoKeyScriptEncrypted, encScript)
-		m.masterKeyPriv.Zero() // Clear the old key.
-		m.masterKeyPriv = newMasterKey
-		m.privPassphraseSalt = passphraseSalt
-		m.hashedPrivPassphrase = hashedPassphrase
+		// Once the db update has been committed, clear the old key and
+		// set the new one. Doing it before the commit would leave the
+		// manager with the new keys for a passphrase change that was
+		// rolled back.
+		ns.Tx().OnCommit(func() {
+			m.mtx.Lock()
+			defer m.mtx.Unlock()
+
+			// The manager may have been locked since.
+			if m.IsLocked() {
+				newMasterKey.Zero()
+				hashedPassphrase = [sha512.Size]byte{}
+			}
+
+			copy(m.cryptoKeyPrivEncrypted, encPriv)
+			copy(m.cryptoKeyScriptEncrypted, encScript)
+			m.masterKeyPriv.Zero() // Clear the old key.
+			m.masterKeyPriv = newMasterKey
+			m.privPassphraseSalt = passphraseSalt
+			m.hashedPrivPassphrase = hashedPassphrase
+		})
 	} else {
 		// Re-encrypt the crypto public key using the new master public
 		// key.
@@ -1055,10 +1068,15 @@ func (m *Manager) ChangePassphrase(ns walletdb.ReadWriteBucket, oldPassphrase,
 			return maybeConvertDbError(err)
 		}
 
-		// Now that the db has been successfully updated, clear the old
-		// key and set the new one.
-		m.masterKeyPub.Zero()
-		m.masterKeyPub = newMasterKey
+		// Once the db update has been committed, clear the old key and
+		// set the new one.
+		ns.Tx().OnCommit(func() {
+			m.mtx.Lock()
+			defer m.mtx.Unlock()
+
+			m.masterKeyPub.Zero()
+			m.masterKeyPub = newMasterKey
+		})
 	}
 
 	return nil
